@@ -41,6 +41,44 @@ def _collect(tree):
     return names
 
 
+_DICT_HEADS = ("dict[", "Dict[", "defaultdict[", "DefaultDict[", "UserDict[", "Mapping[", "MutableMapping[", "OrderedDict[")
+
+
+def _is_dict_of_sets_text(t, dos_classes):
+    t = t.strip("\"'")
+    if t.startswith(_DICT_HEADS) and ("set[" in t or "Set[" in t or "frozenset" in t):
+        return True
+    return t.split("[")[0].split(".")[-1] in dos_classes
+
+
+def _collect_dict_of_sets(trees):
+    """names of variables / attributes / parameters / functions whose values are dicts of sets: annotated
+    dict[..., set[...]] (or defaultdict / UserDict / Mapping ...), or annotated with a class derived from such a type"""
+    dos_classes = set()
+    for t in trees.values():
+        for n in ast.walk(t):
+            if isinstance(n, ast.ClassDef) and any(_is_dict_of_sets_text(ast.unparse(b), ()) for b in n.bases):
+                dos_classes.add(n.name)
+    names = set(dos_classes)
+    for t in trees.values():
+        for n in ast.walk(t):
+            if isinstance(n, ast.AnnAssign) and _is_dict_of_sets_text(ast.unparse(n.annotation), dos_classes):
+                tg = n.target
+                names.add(tg.id if isinstance(tg, ast.Name) else tg.attr if isinstance(tg, ast.Attribute) else None)
+            if isinstance(n, ast.arg) and n.annotation is not None and _is_dict_of_sets_text(ast.unparse(n.annotation), dos_classes):
+                names.add(n.arg)
+            if isinstance(n, (ast.FunctionDef, ast.AsyncFunctionDef)) and n.returns is not None \
+                    and _is_dict_of_sets_text(ast.unparse(n.returns), dos_classes):
+                names.add(n.name + "()")
+            if isinstance(n, ast.Assign) and isinstance(n.value, ast.Call) and isinstance(n.value.func, ast.Name) \
+                    and n.value.func.id in ("defaultdict",) and n.value.args and isinstance(n.value.args[0], ast.Name) \
+                    and n.value.args[0].id in ("set", "frozenset"):
+                for tg in n.targets:
+                    names.add(tg.id if isinstance(tg, ast.Name) else tg.attr if isinstance(tg, ast.Attribute) else None)
+    names.discard(None)
+    return names
+
+
 def scan_repo(root):
     files = []
     for d, _, fs in os.walk(os.path.join(root, "sigma")):
@@ -52,6 +90,18 @@ def scan_repo(root):
     GLOBAL = set()
     for t in trees.values():
         GLOBAL |= _collect(t)
+    DOS = set(DICT_OF_SETS) | _collect_dict_of_sets(trees)
+
+    def dict_of_sets(e, local_dos=()):
+        if isinstance(e, ast.Name):
+            return e.id in DOS or e.id in local_dos
+        if isinstance(e, ast.Attribute):
+            return e.attr in DOS
+        if isinstance(e, ast.Call) and isinstance(e.func, ast.Name):
+            return e.func.id + "()" in DOS or e.func.id in DOS
+        if isinstance(e, ast.Call) and isinstance(e.func, ast.Attribute):
+            return e.func.attr + "()" in DOS
+        return False
 
     def settyped(e, local):
         if isinstance(e, (ast.Set, ast.SetComp)):
@@ -65,6 +115,8 @@ def scan_repo(root):
                     return True
                 if f.attr in ("union", "intersection", "difference", "symmetric_difference", "copy") and settyped(f.value, local):
                     return True
+                if f.attr in ("get", "pop", "setdefault") and dict_of_sets(f.value, LOCAL_DOS[-1]):
+                    return True
             return False
         if isinstance(e, ast.BinOp) and isinstance(e.op, (ast.BitOr, ast.BitAnd, ast.Sub, ast.BitXor)):
             return settyped(e.left, local) or settyped(e.right, local)
@@ -73,13 +125,12 @@ def scan_repo(root):
         if isinstance(e, ast.Attribute):
             return e.attr in GLOBAL or e.attr in local
         if isinstance(e, ast.Subscript):
-            v = e.value
-            nm = v.id if isinstance(v, ast.Name) else v.attr if isinstance(v, ast.Attribute) else None
-            return nm in DICT_OF_SETS
+            return dict_of_sets(e.value, LOCAL_DOS[-1])
         if isinstance(e, ast.IfExp):
             return settyped(e.body, local) or settyped(e.orelse, local)
         return False
 
+    LOCAL_DOS = [set()]
     sites = []
     for f, tree in trees.items():
         rel = os.path.relpath(f, root)
@@ -97,6 +148,25 @@ def scan_repo(root):
             def visit_FunctionDef(s, n):
                 s.stack.append(n.name)
                 loc = set()
+                ldos = set()
+                for m in ast.walk(n):       # locals that alias a dict of sets
+                    if isinstance(m, ast.Assign) and dict_of_sets(m.value, ldos):
+                        for t in m.targets:
+                            if isinstance(t, ast.Name):
+                                ldos.add(t.id)
+                LOCAL_DOS.append(ldos | LOCAL_DOS[-1])
+                for m in ast.walk(n):       # for k, v in d.items() / for v in d.values()  with d a dict of sets
+                    gens = [m] if isinstance(m, ast.For) else getattr(m, "generators", []) if isinstance(
+                        m, (ast.ListComp, ast.SetComp, ast.DictComp, ast.GeneratorExp)) else []
+                    for g in gens:
+                        it = g.iter
+                        if isinstance(it, ast.Call) and isinstance(it.func, ast.Attribute) and it.func.attr in ("items", "values") \
+                                and dict_of_sets(it.func.value, LOCAL_DOS[-1]):
+                            tg = g.target
+                            if it.func.attr == "items" and isinstance(tg, ast.Tuple) and len(tg.elts) == 2:
+                                tg = tg.elts[1]
+                            if isinstance(tg, ast.Name):
+                                loc.add(tg.id)
                 for _ in range(2):      # two passes: assignments from earlier set-typed locals
                     for m in ast.walk(n):
                         if isinstance(m, ast.Assign) and settyped(m.value, loc | s.local[-1]):
@@ -106,7 +176,7 @@ def scan_repo(root):
                         if isinstance(m, ast.AnnAssign) and isinstance(m.target, ast.Name) and (
                                 _is_set_ann(m.annotation) or (m.value is not None and settyped(m.value, loc | s.local[-1]))):
                             loc.add(m.target.id)
-                s.local.append(loc | s.local[-1]); s.generic_visit(n); s.local.pop(); s.stack.pop()
+                s.local.append(loc | s.local[-1]); s.generic_visit(n); s.local.pop(); s.stack.pop(); LOCAL_DOS.pop()
             visit_AsyncFunctionDef = visit_FunctionDef
 
             def add(s, kind, n, e):
